@@ -92,6 +92,14 @@ def inject(desc):
                 d = copy.deepcopy(desc)
                 d["endpoints"][k]["name"] = eps[i]["name"]
                 add(d, "duplicate-endpoint-name", f"endpoints[{k}] := name of endpoints[{i}]")
+                # the same, with the renamed endpoint's connections following the new name (so that the duplicate
+                # name is the only defect)
+                d = copy.deepcopy(d)
+                for c in d["connections"]:
+                    for end in ("src", "dst"):
+                        if c[end] == eps[k]["name"]:
+                            c[end] = eps[i]["name"]
+                add(d, "duplicate-endpoint-name", f"endpoints[{k}] := name of endpoints[{i}], connections renamed")
     if len(desc["routers"]) >= 1:
         d = copy.deepcopy(desc)
         d["routers"].append(copy.deepcopy(desc["routers"][0]))
